@@ -4,6 +4,33 @@ from cfg import *
 GUARDS = ("std::unique_lock", "std::lock_guard", "std::scoped_lock")
 
 
+# project guard classes: class qname -> mutex path; filled by custom_guards() from the bodies of their constructor and destructor
+CUSTOM_GUARDS = {}
+
+
+def custom_guards(funcs):
+    """registers every class whose constructor locks a namespace-scope mutex that its destructor unlocks."""
+    def locked(g, what):
+        for n in g.stmts.values():
+            if n["k"] == "CXXMemberCallExpr" and (n.get("callee") or "").endswith("mutex::" + what) and n.get("obj") is not None:
+                o = g.stmts[g.strip(n["obj"])]
+                if o["k"] == "DeclRefExpr" and o.get("globalStorage"):
+                    return o.get("name")
+        return None
+    ctors, dtors = {}, {}
+    for g in funcs:
+        if g.parent is not None or not g.cls:
+            continue
+        if g.d.get("ctor") and locked(g, "lock"):
+            ctors[g.cls] = locked(g, "lock")
+        if g.d.get("dtor") and locked(g, "unlock"):
+            dtors[g.cls] = locked(g, "unlock")
+    for c, m in ctors.items():
+        if dtors.get(c) == m:
+            CUSTOM_GUARDS[c] = m
+    return dict(CUSTOM_GUARDS)
+
+
 def guard_decls(f):
     """declId -> mutex path for RAII guard locals of f."""
     res = {}
@@ -11,6 +38,9 @@ def guard_decls(f):
         if n["k"] != "DeclStmt":
             continue
         for d in n["decls"]:
+            if d.get("cls") in CUSTOM_GUARDS:
+                res[d["declId"]] = CUSTOM_GUARDS[d["cls"]]
+                continue
             if d.get("cls") in GUARDS and "init" in d:
                 i = f.strip(d["init"])
                 c = f.stmts[i]
